@@ -250,6 +250,19 @@ func (r *repeat) more(s bitStream) bool {
 		pCont = 0
 	}
 
+	if r.forceStop && r.count < r.maxCount && r.pContinue < 1 {
+		// The decision to stop is forced by rejections, which are not part of the pruned
+		// bitstream. Make sure the last coin flip stops the loop on its own, so that
+		// replaying the bitstream without the rejected groups stops at the same place.
+		pCont = r.pContinue
+		for flipBiasedCoin(s, pCont) {
+			s.endGroup(r.group, true)
+			r.group = s.beginGroup(r.label, true)
+		}
+		s.endGroup(r.group, false)
+		return false
+	}
+
 	cont := flipBiasedCoin(s, pCont)
 	if cont {
 		r.count++
